@@ -62,7 +62,9 @@ def rich_blob(rng, depth, pool, tag=None):
     e = E(tag or rng.choice(['meta', 'data', 'blk', 'story', 'item', 'roDelete', 'mosromgrmeta',
                              'roCreate', 'storyID', 'itemID', 'p', '{urn:vendor}clip', '{urn:vendor}TextTime',
                              '{urn:vendor}storyID', '{urn:vendor}item', '{urn:vendor}roDelete',
-                             'L\u00e4nge', '\u5e45']))          # XML names need not be ASCII
+                             'L\u00e4nge', 'Gr\u00f6\u00dfe']))   # XML names need not be ASCII (kept within Latin-1:
+                                                                 # some workloads re-encode documents as ISO-8859-1,
+                                                                 # where a NAME cannot be a character reference)
     if rng.random() < 0.5:
         e.set(rng.choice(['a', 'type', 'lang', 'x-y', 'Ma\u00dfeinheit']), rng.choice(pool))
     if rng.random() < 0.3:
